@@ -37,7 +37,12 @@ fn image_for(index: u64, wt: &mut Tape) -> (String, Vec<u8>) {
                 return (format!("gds21-writer:{}", describe(&lib)), v);
             }
         } else {
-            let (n, _) = gen_nlib(wt);
+            let (mut n, nsw) = gen_nlib(wt);
+            if wt.chance(1, 5) {
+                // spec-valid library-level optional records (the reader documents them as unsupported): their
+                // single-record faults (e.g. ENDMASKS lost) are as much part of "any bytes" as any other
+                n.extras.push(gen_extra(wt, &nsw));
+            }
             if let Ok(mut v) = gdsref::encode(&n) {
                 if wt.chance(1, 4) {
                     let k = wt.range(1, 64);
